@@ -32,12 +32,18 @@ func ckksCfgs(tier string) []cklib.Cfg {
 		{Name: "ci-logN4-P0", RingType: ring.ConjugateInvariant, LogN: 4, LogQ: q4, LogScale: 45, LogSlots: -1, Pow2: 6},
 		{Name: "ci-logN4-P2-sparse2", RingType: ring.ConjugateInvariant, LogN: 4, LogQ: q4, LogP: []int{61, 61}, LogScale: 45, LogSlots: 2},
 	}
+	cfgs = append(cfgs,
+		cklib.Cfg{Name: "std-logN5-P1", RingType: ring.Standard, LogN: 5, LogQ: q4, LogP: []int{61}, LogScale: 45, LogSlots: -1},
+		cklib.Cfg{Name: "ci-logN5-P2", RingType: ring.ConjugateInvariant, LogN: 5, LogQ: q4, LogP: []int{61, 61}, LogScale: 45, LogSlots: -1},
+	)
 	if tier == "thorough" {
 		cfgs = append(cfgs,
-			cklib.Cfg{Name: "std-logN5-P1", RingType: ring.Standard, LogN: 5, LogQ: q4, LogP: []int{61}, LogScale: 45, LogSlots: -1},
 			cklib.Cfg{Name: "std-logN5-P2-sparse3", RingType: ring.Standard, LogN: 5, LogQ: q4, LogP: []int{61, 61}, LogScale: 45, LogSlots: 3},
 			cklib.Cfg{Name: "std-logN6-P1", RingType: ring.Standard, LogN: 6, LogQ: q4, LogP: []int{61}, LogScale: 45, LogSlots: -1},
-			cklib.Cfg{Name: "ci-logN5-P1", RingType: ring.ConjugateInvariant, LogN: 5, LogQ: q4, LogP: []int{61}, LogScale: 45, LogSlots: -1},
+			cklib.Cfg{Name: "ci-logN5-P1-sparse3", RingType: ring.ConjugateInvariant, LogN: 5, LogQ: q4, LogP: []int{61}, LogScale: 45, LogSlots: 3},
+			cklib.Cfg{Name: "ci-logN6-P1", RingType: ring.ConjugateInvariant, LogN: 6, LogQ: q4, LogP: []int{61}, LogScale: 45, LogSlots: -1},
+			cklib.Cfg{Name: "std-logN7-P1", RingType: ring.Standard, LogN: 7, LogQ: q4, LogP: []int{61}, LogScale: 45, LogSlots: -1},
+			cklib.Cfg{Name: "std-logN7-P2-sparse4", RingType: ring.Standard, LogN: 7, LogQ: q4, LogP: []int{61, 61}, LogScale: 45, LogSlots: 4},
 			cklib.Cfg{Name: "std-logN5-P0", RingType: ring.Standard, LogN: 5, LogQ: q4, LogScale: 45, LogSlots: -1, Pow2: 6},
 		)
 	}
@@ -49,9 +55,9 @@ func worlds(tier string) []*world {
 	for _, cf := range ckksCfgs(tier) {
 		ws = append(ws, ckksWorld(cf))
 	}
-	ws = append(ws, bgvWorld(4, 1, 97), bgvWorld(4, 0, 97), bgvWorld(4, 2, 97))
+	ws = append(ws, bgvWorld(4, 1, 97), bgvWorld(4, 0, 97), bgvWorld(4, 2, 97), bgvWorld(5, 1, 193))
 	if tier == "thorough" {
-		ws = append(ws, bgvWorld(5, 1, 193), bgvWorld(5, 2, 193), bgvWorld(6, 1, 257))
+		ws = append(ws, bgvWorld(5, 2, 193), bgvWorld(5, 0, 193), bgvWorld(6, 1, 257), bgvWorld(6, 2, 257), bgvWorld(7, 1, 257))
 	}
 	return ws
 }
@@ -106,7 +112,7 @@ func main() {
 			for _, m := range sumMethods {
 				e = append(e, "sum="+m)
 			}
-			for d := 0; d < 4; d++ {
+			for d := 0; d < 5; d++ {
 				e = append(e, fmt.Sprintf("trace=ckks-depth%d", d), fmt.Sprintf("trace=bgv-depth%d", d))
 			}
 			return e
